@@ -59,13 +59,72 @@ def field_at(content, offset):
     return "past the end"
 
 
+VERSION_02 = 0x3E4CCCCD
+# float32 words that Python's round(x, 3) maps to 0.2 like the writer's own literal (pose_body.py:62-69)
+FOREIGN_VERSIONS = [0x3E4CCCCD, 0x3E4CCCCC, 0x3E4CCCCE, 0x3E4CCCD4, 0x3E4CCCC4]
+
+
+def foreign_word(r, conf=False):
+    """an arbitrary 32-bit float word: every class, including the ones no Pose.write of a float64/float32 array of
+    ordinary numbers produces (NaN payloads, signalling NaNs)"""
+    k = r.randrange(10)
+    if k == 0:
+        return r.choice([0, 0x80000000])
+    if k == 1:
+        return r.choice([0x7F800000, 0xFF800000])
+    if k == 2:
+        return r.choice([0x7FC00000, 0x7FC00001, 0xFFC00000, 0x7F800001, 0x7FBFFFFF, 0xFFFFFFFF, 0x7FC12345])
+    if k == 3:
+        return r.choice([1, 0x007FFFFF, 0x80000001, 0x00800000, 0x7F7FFFFF, 0xFF7FFFFF, r.randrange(1, 0x00800000)])
+    if k == 4 and conf:
+        return r.choice([0x3F800000, 0x3F000000, 0])
+    return r.getrandbits(32)
+
+
+def foreign_content(content, spec):
+    """a coherent content over the same header and shape whose version / fps / float words are arbitrary: not the image
+    of any written pose"""
+    import random
+    r = random.Random(spec["seed"])
+    c = dict(content)
+    c["version"] = spec["version"]
+    c["fps"] = spec["fps"]
+    c["data"] = [foreign_word(r) for _ in content["data"]]
+    c["conf"] = [foreign_word(r, conf=True) for _ in content["conf"]]
+    c["mask"] = [int((w & 0x7FFFFFFF) == 0) for w in c["conf"]]
+    return c
+
+
+def canon_content(c):
+    """a content as dump_pose shows it: NaN words mapped to one word"""
+    d = dict(c)
+    d["fps"] = pg.canon32(c["fps"])
+    d["data"] = [pg.canon32(w) for w in c["data"]]
+    d["conf"] = [pg.canon32(w) for w in c["conf"]]
+    return d
+
+
+def canon_file(bs, nwords):
+    """NaN words of the two blocks and of the fps field (10 bytes before the blocks) mapped to one word"""
+    bs = canon_tail(bs, nwords)
+    o = len(bs) - 4 * nwords - 10
+    if o >= 0:
+        w = bs[o] | bs[o + 1] << 8 | bs[o + 2] << 16 | bs[o + 3] << 24
+        if (w & 0x7FFFFFFF) > 0x7F800000:
+            bs[o:o + 4] = [0, 0, 0xC0, 0x7F]
+    return bs
+
+
 class C02(common.Prop):
     ID = "C02"
     RUNNER = "c02"
-    MODEL_FILES = ["model/C02_SpecV02.v", "model/Codec.v", "model/PoseRead.v"]
+    MODEL_FILES = ["model/C02_SpecV02.v", "model/C02_Content.v", "model/C02_Run.v", "model/Codec.v", "model/PoseRead.v"]
     RULE = ("poses of the C01 space; writer direction: Pose.write bytes vs the harness reference encoder (written from docs/specs/v0.2.md) vs "
             "the extracted Coq spec encoder; reader direction: Pose.read of reference-encoded bytes vs the encoded content, then "
-            "re-writing reproduces the file; non-trivial = the pose is representable (the writer accepts it); distinct by content hash")
+            "re-writing reproduces the file; the same reader direction on a FOREIGN content over the same header and shape (arbitrary "
+            "32-bit float words incl. NaN payloads / signalling NaNs / infinities, arbitrary fps word, a version word next to 0.2): "
+            "Pose.read vs the content vs the Coq reader model, re-write vs the reference encoding with version 0.2 (NaN words mapped to "
+            "one word); non-trivial = the pose is representable (the writer accepts it); distinct by content hash")
     TRUSTED = ["Coq 8.16.1 kernel", "harness/translate_py.py", "extraction: ExtrOcamlBasic only; runner/driver.ml",
                "harness/c02.py py_spec_encode (independent reference encoder), harness/posegen.py canonicalisers"]
     ASSUMPTIONS = ["docs/specs/v0.2.md `string` and `char[]` mean a 16-bit little-endian byte count followed by UTF-8 bytes (as the property states)",
@@ -80,7 +139,9 @@ class C02(common.Prop):
     def gen_cases(self, rng, tier):
         n = 300 if tier == "quick" else 5000
         for _ in range(n):
-            yield pg.gen_pose_case(rng, edge=0.08)
+            case = pg.gen_pose_case(rng, edge=0.08)
+            case["foreign"] = {"version": rng.choice(FOREIGN_VERSIONS), "fps": foreign_word(rng), "seed": rng.getrandbits(32)}
+            yield case
 
     def features(self, case):
         return self.c01.features(case)
@@ -112,6 +173,29 @@ class C02(common.Prop):
                 p.write(buf)
                 rw = list(buf.getvalue())
             case["_rewrite"] = rw
+            # the reader direction on a content that is not the image of a written pose
+            if case.get("foreign") and content["shape"][3] >= 1:
+                fc = foreign_content(content, case["foreign"])
+                case["_fcontent"] = fc
+                fref = py_spec_encode(fc)
+                case["_fref"] = fref
+                pg.set_memo("empty")
+                fr, _ = pg.impl_read(fref)
+                case["_fread"] = fr
+                frw = None
+                if fr[0] == "ok":
+                    from pose_format import Pose
+                    import io
+                    pg.set_memo("empty")
+                    try:
+                        buf = io.BytesIO()
+                        Pose.read(bytes(fref)).write(buf)
+                        frw = ["ok", list(buf.getvalue())]
+                    except Exception as e:
+                        frw = ["err", type(e).__name__]
+                case["_frewrite"] = frw
+                out["foreign_read"] = pg.strip_err(fr)
+                out["foreign_rewrite"] = pg.strip_err(frw) if frw is not None else None
         return out
 
     def run_model(self, case, runner):
@@ -124,6 +208,17 @@ class C02(common.Prop):
             tree = [[c["version"], c["dims"], comps], [c["fps"], c["shape"], c["data"], c["conf"], c["mask"]]]
             sp = runner.ask([7, tree])
             out["ref_bytes"] = list(sp[1]) if sp[0] == 1 else None
+            if "_fcontent" in case:
+                c = case["_fcontent"]
+                tree = [[c["version"], c["dims"], comps], [c["fps"], c["shape"], c["data"], c["conf"], []]]   # no mask given
+                t = runner.ask([8, tree])
+                if t[0] == 1:
+                    out["foreign_coherent"] = t[1]
+                    out["foreign_ref"] = list(t[2])
+                    out["foreign_read"] = pg.result_of_tree(t[3], pg.pose_of_tree)
+                    out["foreign_rewrite"] = pg.result_of_tree(t[4], lambda x: list(x))
+                else:
+                    out["foreign_ref"] = None
         return out
 
     def compare(self, case, io, mo):
@@ -138,6 +233,16 @@ class C02(common.Prop):
                 return "Coq spec encoder and harness reference encoder differ"
             if canon_tail(mo["ref_bytes"], nf) != a:
                 return "spec encoder output differs from the written bytes"
+            if "_fcontent" in case:
+                if mo.get("foreign_ref") is None or mo["foreign_ref"] != case["_fref"]:
+                    return "foreign content: Coq spec encoder and harness reference encoder differ"
+                if mo.get("foreign_coherent") != 1:
+                    return "foreign content over a written pose's header and shape is not coherent in the model"
+                if io["foreign_read"] != mo["foreign_read"]:
+                    return "foreign content: Pose.read of the reference bytes, implementation %s, model %s" % (io["foreign_read"][0], mo["foreign_read"][0])
+                ir, mr = io["foreign_rewrite"], mo["foreign_rewrite"]
+                if ir is not None and (ir[0] != mr[0] or (ir[0] == "ok" and canon_file(ir[1], nf) != canon_file(mr[1], nf))):
+                    return "foreign content: re-written bytes differ between implementation and model"
         return None
 
     def oracle(self, case):
@@ -161,6 +266,24 @@ class C02(common.Prop):
             return {"what": "reference-encoded file is read to different content: %s" % diff, "kind": "read-differs", "field": diff[0]}
         if case["_rewrite"] is not None and canon_tail(case["_rewrite"], nf) != b:
             return {"what": "re-writing the pose that was just read does not reproduce the file", "kind": "rewrite"}
+        if "_fcontent" in case:
+            fc, fr, frw = case["_fcontent"], case["_fread"], case["_frewrite"]
+            if fr[0] != "ok":
+                return {"what": "reading the reference encoding of a foreign content raises %s" % fr[1], "kind": "foreign-read-raises"}
+            exp = canon_content(fc)
+            if fr[1] != exp:
+                diff = [k for k in exp if fr[1].get(k) != exp[k]] + [k for k in fr[1] if k not in exp]
+                return {"what": "reference encoding of a foreign content is read to different content: %s" % diff,
+                        "kind": "foreign-read-differs", "field": diff[0]}
+            if frw is None or frw[0] != "ok":
+                return {"what": "re-writing the foreign pose that was just read raises %s" % (frw[1] if frw else "?"), "kind": "foreign-rewrite-raises"}
+            want = dict(fc)
+            want["version"] = VERSION_02
+            if canon_file(frw[1], nf) != canon_file(py_spec_encode(want), nf):
+                return {"what": "re-writing the foreign pose that was just read does not give its reference encoding with version 0.2",
+                        "kind": "foreign-rewrite"}
+            if fc["version"] == VERSION_02 and canon_file(frw[1], nf) != canon_file(case["_fref"], nf):
+                return {"what": "re-writing the foreign pose that was just read does not reproduce the file", "kind": "foreign-rewrite"}
         return None
 
     def classify(self, case, f):
